@@ -165,7 +165,8 @@ def run(tier, seed, model):
                 else:
                     calls.append({"method": "pause", "args": [rng.choice([0.1, 0.3])], "sleep": 0, "exp": ["ret", "obj"], "async": 0})
             if not any(cc["method"] == "mouseDrag" and cc["args"][:2] != [0, 0] for cc in calls):
-                calls.insert(1, {"method": "mouseDrag", "args": [3, 0, 1], "sleep": 0, "exp": ["ret", "obj"], "async": 0})
+                # as the very first call: three steps from the origin (anywhere later it could be a long way from the pointer)
+                calls.insert(0, {"method": "mouseDrag", "args": [3, 0, 1], "sleep": 0, "exp": ["ret", "obj"], "async": 0})
             # calls that fail in the middle (a button / a coordinate the message cannot carry): they raise, and the calls
             # after them behave as if they had not been made
             for bad in rng.sample([("mouseDown", [9]), ("mouseMove", [70000, 3]), ("mousePress", [12]), ("mouseMove", [5, -1])], rng.randrange(1, 3)):
